@@ -143,7 +143,7 @@ var alphabet = []prog{
 	{Name: "file-a-of-two-identical-raises", Src: "import(\"@MODS@/util_a\").check(1)", Fails: true},
 	{Name: "file-b-of-two-identical-raises", Src: "import(\"@MODS@/util_b\").check(2)", Fails: true},
 	{Name: "file-b-of-two-identical-passes", Src: "u := import(\"@MODS@/util_b\")\n[u.check(50), nil.try.{|v| u.check(3)}.err.msg]"},
-	{Name: "eval-same-text-as-a-file", Src: "f := \"check := {|x| raise ValueErr.new(\\\"too small: \\\" + x.S) if x < 10; x}\\n\".evalEnv\nf.check(4)", Fails: true},
+	{Name: "eval-same-text-as-a-file", Src: "f := \"check := m{|x| raise ValueErr.new(\\\"too small: \\\" + x.S) if x < 10; x}\\n\".evalEnv\nf.check(4)", Fails: true},
 	// abstract properties called on the abstract prototypes themselves; a program's own abstract method
 	{Name: "abstract-props-of-Either-called", Src: "[nil.try.{|u| Either.val}.err.msg, nil.try.{|u| Either.fmap {|x| x}}.err.msg, nil.try.{|u| Either.A}.err.msg, nil.try.{|u| Either.or(1)}.err.msg, nil.try.{|u| Either.err}.err.msg]"},
 	{Name: "own-abstract-method-caught", Src: "shape := {area: m{_}, name: m{\"shape\"}}\n[nil.try.{|u| shape.area}.err.msg, nil.try.{|u| _}.err.msg, shape.name]"},
@@ -178,7 +178,7 @@ func writeMods(d string) {
 	os.WriteFile(filepath.Join(d, "good.pangaea"), []byte("answer := 42\ntwice := {|x| x * 2}\n"), 0o644)
 	os.WriteFile(filepath.Join(d, "badsyntax.pangaea"), []byte("answer := (42\n"), 0o644)
 	for _, n := range []string{"util_a", "util_b"} {
-		os.WriteFile(filepath.Join(d, n+".pangaea"), []byte("check := {|x| raise ValueErr.new(\"too small: \" + x.S) if x < 10; x}\n"), 0o644)
+		os.WriteFile(filepath.Join(d, n+".pangaea"), []byte("check := m{|x| raise ValueErr.new(\"too small: \" + x.S) if x < 10; x}\n"), 0o644)
 	}
 }
 
